@@ -251,10 +251,89 @@ def run_case(case, ctx):
         ctx.sample(desc(), cfg["ptr"])
 
 
+@st.composite
+def reconf_case(draw):
+    ws = ["uint8", "uint16", "uint32", "uint64"]
+    w1 = draw(st.sampled_from(ws))
+    w2 = draw(st.sampled_from([w for w in ws if w != w1]))
+    return {"reconf": True, "w1": w1, "w2": w2, "target": draw(st.sampled_from(["uint8", "uint16", "char", "Tgt"])), "endian": draw(st.sampled_from("<>")),
+            "compiled": draw(st.booleans()), "via": draw(st.sampled_from(["load", "load", "add_field"])), "addr": draw(st.integers(1, 3)), "fill": draw(st.binary(min_size=8, max_size=8)).hex()}
+
+
+def _run_reconf(case, ctx):
+    """The pointer width is configuration: structures defined after `cs.pointer` was changed use the new width, also
+    for a target type that was already pointed to under the old width."""
+    m = import_repo()
+    w1, w2, tgt = case["w1"], case["w2"], case["target"]
+    p2 = SCALARS[w2][1]
+    cs = m.cstruct(endian=case["endian"], pointer=w1)
+    r = lib(cs.load, f"struct Tgt {{ uint16 a; uint8 b; }};\nstruct First {{ {tgt} *p; {tgt} *pa[2]; uint8 x; }};", compiled=case["compiled"])
+    if isinstance(r, Err):
+        raise Violation("definition-rejected", f"{r}", r.where)
+    first_size = len(cs.First)
+    cs.pointer = cs.resolve(w2)
+    if case["via"] == "load":
+        r = lib(cs.load, f"struct Second {{ {tgt} *q; uint8 mid; {tgt} *qa[2]; uint8 y; }};", compiled=case["compiled"])
+    else:
+        def build():
+            S = cs._make_struct("Second", [])
+            if case["compiled"]:
+                from dissect.cstruct import compiler
+
+                S = compiler.compile(S)
+            T = cs.resolve(tgt)
+            S.add_field("q", cs._make_pointer(T))
+            S.add_field("mid", cs.uint8)
+            S.add_field("qa", cs._make_array(cs._make_pointer(T), 2))
+            S.add_field("y", cs.uint8)
+            cs.add_type("Second", S)
+
+        r = lib(build)
+    if isinstance(r, Err):
+        raise Violation("definition-rejected", f"second definition after reconfiguring the pointer type: {r}", r.where)
+    S = cs.Second
+    what = f"pointer {w1} -> {w2}, target {tgt}, second struct via {case['via']}, compiled={case['compiled']}, endian {case['endian']}"
+    want_size = 3 * p2 + 2
+    if len(S) != want_size:
+        raise Violation("pointer-width", f"{what}: len(Second) = {len(S)}, three pointers of the configured width {p2} and two bytes give {want_size}")
+    bo = "little" if case["endian"] == "<" else "big"
+    addr = want_size + case["addr"]
+    image = addr.to_bytes(p2, bo) + b"\x5a" + (0).to_bytes(p2, bo) + (addr + 1).to_bytes(p2, bo) + b"\xa5" + bytes.fromhex(case["fill"]) + bytes(4)
+    if addr + 4 > (1 << (8 * p2)) - 1:
+        return
+    s = io.BytesIO(image)
+    obj = lib(S, s)
+    if isinstance(obj, Err):
+        raise Violation("header-parse-raised", f"{what}: {obj}", obj.where)
+    if int(obj.q) != addr or obj.mid != 0x5A or int(obj.qa[0]) != 0 or int(obj.qa[1]) != addr + 1 or obj.y != 0xA5 or s.tell() != want_size:
+        raise Violation("pointer-width", f"{what}: parsed q={int(obj.q)} mid={obj.mid:#x} qa={[int(x) for x in obj.qa]} y={obj.y:#x} tell={s.tell()}, expected q={addr} mid=0x5a qa=[0, {addr + 1}] y=0xa5 tell={want_size}")
+    if lib(obj.dumps) != image[:want_size]:
+        raise Violation("dumps-changes-address", f"{what}: dumps {lib(obj.dumps)!r} vs {image[:want_size].hex()}")
+    if tgt == "uint8":
+        d = lib(obj.q.dereference)
+        if isinstance(d, Err) or int(d) != image[addr]:
+            raise Violation("dereference-wrong-target", f"{what}: q.dereference() = {d!r}, byte at {addr} is {image[addr]}")
+    ctx.count(f"reconf:{w1}->{w2}:{case['via']}")
+    ctx.mark_nontrivial(case)
+    ctx.sample({"what": what, "first_size": first_size, "second_size": want_size}, "reconf")
+
+
+_run_heap = run_case
+
+
+def run_case(case, ctx):  # noqa: F811 - dispatch on the case kind
+    if case.get("reconf"):
+        return _run_reconf(case, ctx)
+    return _run_heap(case, ctx)
+
+
 def common_root():
     return {"k": "ref", "n": "Root"}
 
 
 def stages(tier):
     q = tier == "quick"
-    return [HypStage("heap", heap_case, examples=1500 if q else 8000, shards=8 if q else 16)]
+    return [
+        HypStage("heap", heap_case, examples=1500 if q else 8000, shards=8 if q else 16),
+        HypStage("reconfigure", reconf_case, examples=400 if q else 3000, shards=1 if q else 2),
+    ]
